@@ -301,7 +301,10 @@ class CodeWrapper(object):
                         cleaned_lead_out += [e_burst]
                         break
                 else:
-                    if self._match(e_burst, total_time + abs(burst)):
+                    if (
+                        i + 1 == len(lead_out) and
+                        self._match(e_burst, total_time + abs(burst))
+                    ):
                         cleaned_lead_out += [None]
 
                     elif not cleaned_lead_out:
